@@ -8,9 +8,11 @@ CONSTANTS
   HasCache = FALSE
   CachePutBeforeDbWrite = FALSE
   BulkVersionsUsesEpoch = FALSE
+  FillPolicy = "if_same_generation"
   Export = TRUE
   MaxSteps = 4
   WithReads = FALSE
+  SplitReads = FALSE
 INIT MCInit
 NEXT MCNext
 VIEW View
